@@ -42,7 +42,8 @@ PROFILES = {
     "c19-validation": Profile("c19-validation", {
         "new_doc": 4, "new_sec": 10, "new_prop": 10, "create_section": 4, "create_property": 4,
         "clone": 5, "append": 5, "set_attr": 6, "set_card": 10, "add_valid": 8, "remove_valid": 4,
-        "validate": 14, "doc_validate": 8, "validate_custom": 12, "save": 6, "load": 4,
+        "validate": 14, "doc_validate": 8, "validate_custom": 12, "validate_keep": 3,
+        "validate_rerun": 6, "validate_optional": 5, "save": 6, "load": 4,
         "restart": 4, "set_values": 3, "rename": 2, "lookalike_prop": 4, "damage_file": 3,
         "set_link": 3,
     }, fault_share=0.25, detached_share=0.25),
